@@ -39,7 +39,8 @@ with kw :=
 | KwItemsArr (ss : list js)                  (* array-form "items" *)
 | KwAddItems (s : js)                        (* "additionalItems" *)
 | KwDependencies (l : list (string * list string))
-| KwNullable.                                (* OpenAPI 3.0 "nullable": true *)
+| KwNullable                                 (* OpenAPI 3.0 "nullable": true *)
+| KwAnnot (name : string).                   (* a keyword without validation effect: default, title, $defs, ... (value not modelled) *)
 
 Definition defs := list (string * js).
 
@@ -124,81 +125,92 @@ Section Valid.
   Definition additional (kws : list kw) (key : string) : bool :=
     negb (existsb (String.eqb key) (prop_names kws)) && negb (existsb (fun p => prefixb p key) (prop_patterns kws)).
 
+  Definition is_null (d : pyval) : bool := match d with PNone => true | _ => false end.
+
+  Section Loops.
+    Variable V : js -> pyval -> bool.
+    Fixpoint zip_valid (l1 : list js) (l : list pyval) : bool :=
+      match l1, l with
+      | s1 :: sr, x :: lr => V s1 x && zip_valid sr lr
+      | _, _ => true
+      end.
+    Fixpoint props_valid (ps : list (string * js)) (kvs : list (string * pyval)) : bool :=
+      match ps with
+      | [] => true
+      | (n, s1) :: pr => match dict_get n kvs with Some x => V s1 x | None => true end && props_valid pr kvs
+      end.
+    Fixpoint pats_valid (ps : list (string * js)) (kvs : list (string * pyval)) : bool :=
+      match ps with
+      | [] => true
+      | (p, s1) :: pr => forallb (fun kv => negb (prefixb p (fst kv)) || V s1 (snd kv)) kvs && pats_valid pr kvs
+      end.
+    Fixpoint any_valid (l : list js) (d : pyval) : bool :=
+      match l with [] => false | s1 :: sr => V s1 d || any_valid sr d end.
+    Fixpoint all_valid_js (l : list js) (d : pyval) : bool :=
+      match l with [] => true | s1 :: sr => V s1 d && all_valid_js sr d end.
+    Fixpoint count_valid (l : list js) (d : pyval) : nat :=
+      match l with [] => 0 | s1 :: sr => (if V s1 d then 1 else 0) + count_valid sr d end.
+  End Loops.
+
   Fixpoint jvalid (fuel : nat) : js -> pyval -> bool :=
     fix go (s : js) (d : pyval) {struct s} : bool :=
       match s with
       | JBoolS b => b
       | JS kws =>
           (* OpenAPI 3.0: "nullable": true lets null through whatever the other keywords say *)
-          (nullable kws && match d with PNone => true | _ => false end) ||
-          (fix all (ks : list kw) : bool :=
-             match ks with
-             | [] => true
-             | k :: r =>
-                 (match k with
-                  | KwItems s' | KwAddItems s' =>
-                      match d with
-                      | PList l => forallb (go s') (skipn (prefix_len kws) l)
-                      | _ => true
-                      end
-                  | KwPrefixItems ss | KwItemsArr ss =>
-                      match d with
-                      | PList l => (fix zip (ss : list js) (l : list pyval) : bool :=
-                                      match ss, l with
-                                      | s1 :: sr, x :: lr => go s1 x && zip sr lr
-                                      | _, _ => true
-                                      end) ss l
-                      | _ => true
-                      end
-                  | KwProperties ps =>
-                      match d with
-                      | PDict kvs => (fix props (ps : list (string * js)) : bool :=
-                                        match ps with
-                                        | [] => true
-                                        | (n, s1) :: pr => match dict_get n kvs with Some x => go s1 x | None => true end
-                                                           && props pr
-                                        end) ps
-                      | _ => true
-                      end
-                  | KwPatternProps ps =>
-                      match d with
-                      | PDict kvs => (fix pats (ps : list (string * js)) : bool :=
-                                        match ps with
-                                        | [] => true
-                                        | (p, s1) :: pr =>
-                                            forallb (fun kv => negb (prefixb p (fst kv)) || go s1 (snd kv)) kvs && pats pr
-                                        end) ps
-                      | _ => true
-                      end
-                  | KwPropertyNames s' =>
-                      match d with
-                      | PDict kvs => forallb (fun kv => go s' (PStr (fst kv))) kvs
-                      | _ => true
-                      end
-                  | KwAddProps s' =>
-                      match d with
-                      | PDict kvs => forallb (fun kv => negb (additional kws (fst kv)) || go s' (snd kv)) kvs
-                      | _ => true
-                      end
-                  | KwAnyOf ss => (fix any (ss : list js) : bool :=
-                                     match ss with [] => false | s1 :: sr => go s1 d || any sr end) ss
-                  | KwAllOf ss => (fix alls (ss : list js) : bool :=
-                                     match ss with [] => true | s1 :: sr => go s1 d && alls sr end) ss
-                  | KwOneOf ss => Nat.eqb 1 ((fix count (ss : list js) : nat :=
-                                                match ss with
-                                                | [] => 0
-                                                | s1 :: sr => (if go s1 d then 1 else 0) + count sr end) ss)
-                  | KwRef leaf name =>
-                      match def_lookup name ds with
-                      | None => false
-                      | Some s' => if leaf then leaf_valid s' d
-                                   else match fuel with O => false | S f => jvalid f s' d end
-                      end
-                  | KwNullable => true
-                  | other => match flat_kw other d with Some b => b | None => true end
-                  end) && all r
-             end) kws
+          (nullable kws && is_null d) ||
+          forallb (fun k =>
+            match k with
+            | KwItems s' | KwAddItems s' =>
+                match d with PList l => forallb (go s') (skipn (prefix_len kws) l) | _ => true end
+            | KwPrefixItems l1 | KwItemsArr l1 => match d with PList l => zip_valid go l1 l | _ => true end
+            | KwProperties ps => match d with PDict kvs => props_valid go ps kvs | _ => true end
+            | KwPatternProps ps => match d with PDict kvs => pats_valid go ps kvs | _ => true end
+            | KwPropertyNames s' =>
+                match d with PDict kvs => forallb (fun kv => go s' (PStr (fst kv))) kvs | _ => true end
+            | KwAddProps s' =>
+                match d with
+                | PDict kvs => forallb (fun kv => negb (additional kws (fst kv)) || go s' (snd kv)) kvs
+                | _ => true
+                end
+            | KwAnyOf l => any_valid go l d
+            | KwAllOf l => all_valid_js go l d
+            | KwOneOf l => Nat.eqb 1 (count_valid go l d)
+            | KwRef leaf name =>
+                match def_lookup name ds with
+                | None => false
+                | Some s' => if leaf then leaf_valid s' d
+                             else match fuel with O => false | S f => jvalid f s' d end
+                end
+            | KwNullable => true
+            | other => match flat_kw other d with Some b => b | None => true end
+            end) kws
       end.
+
+  (* one keyword, given its siblings *)
+  Definition kw_valid (fuel : nat) (kws : list kw) (k : kw) (d : pyval) : bool :=
+    let V := jvalid fuel in
+    match k with
+    | KwItems s' | KwAddItems s' =>
+        match d with PList l => forallb (V s') (skipn (prefix_len kws) l) | _ => true end
+    | KwPrefixItems l1 | KwItemsArr l1 => match d with PList l => zip_valid V l1 l | _ => true end
+    | KwProperties ps => match d with PDict kvs => props_valid V ps kvs | _ => true end
+    | KwPatternProps ps => match d with PDict kvs => pats_valid V ps kvs | _ => true end
+    | KwPropertyNames s' => match d with PDict kvs => forallb (fun kv => V s' (PStr (fst kv))) kvs | _ => true end
+    | KwAddProps s' =>
+        match d with PDict kvs => forallb (fun kv => negb (additional kws (fst kv)) || V s' (snd kv)) kvs | _ => true end
+    | KwAnyOf l => any_valid V l d
+    | KwAllOf l => all_valid_js V l d
+    | KwOneOf l => Nat.eqb 1 (count_valid V l d)
+    | KwRef leaf name =>
+        match def_lookup name ds with
+        | None => false
+        | Some s' => if leaf then leaf_valid s' d
+                     else match fuel with O => false | S f => jvalid f s' d end
+        end
+    | KwNullable => true
+    | other => match flat_kw other d with Some b => b | None => true end
+    end.
 End Valid.
 
 (* data of the common semantic domain of C06: JSON values (no nan / inf, no foreign object) without integer-valued float
